@@ -181,6 +181,22 @@ def check_scale(c):
             if len(set(a)) == 1 and len(set(b)) == 1:
                 P3 = teneva.ind_to_poi(I, a[0], b[0], n, kind)
                 res.check(np.array_equal(P3, P), 'opts.all_scalar', case, 'all-scalar options differ')
+    # batches longer than any plausible internal block size: identical bits to the short batch, row by row
+    if c.get('long'):
+        for kind in ('uni', 'cheb'):
+            res.ev()
+            L = c['long']
+            Ib = np.tile(I, (L // len(I) + 1, 1))[:L]
+            with warnings.catch_warnings():
+                warnings.simplefilter('ignore')
+                Pb = teneva.ind_to_poi(Ib, a, b, [n] * d, kind)
+                Ps = teneva.ind_to_poi(I, a, b, [n] * d, kind)
+                Jb = teneva.poi_to_ind(Pb, a, b, [n] * d, kind)
+                Sb = teneva.poi_scale(Pb, a, b, kind)
+                Ss = teneva.poi_scale(Ps, a, b, kind)
+            idx = np.arange(L) % len(I)
+            res.check(np.array_equal(Pb, Ps[idx]) and np.array_equal(Jb, Ib) and np.array_equal(Sb, Ss[idx]), 'long_batch', dict(c, kind=kind, rows=L),
+                      'a batch of %d rows is not the row-wise repetition of the short batch' % L)
     # inconsistent lengths
     for args in ((a + [0.0], b, [n] * d), (a, b[:-1] if d > 1 else b + [1.0], [n] * d), (a, b, [n] * (d + 1))):
         res.ev()
@@ -273,7 +289,7 @@ def strata(tier, seed):
         combos = [[bx] * d for bx in dy] + ([list(dy[k:k + d]) for k in range(len(dy) - d + 1)] if d > 1 else [])
         for boxes in combos:
             for n in (2, 3, 8):
-                ss.append(dict(d=d, boxes=[list(x) for x in boxes], n=n))
+                ss.append(dict(d=d, boxes=[list(x) for x in boxes], n=n, long=(16385 if (n == 3 and boxes[0] == dy[2]) else (70001 if (n == 8 and boxes[0] == dy[0] and d == 2) else 0))))
     yield Stratum('scaling, option broadcasting, rejection', ss, 'scale', size=len(ss), chunk=8, bounds={'d': [1, 4]})
     shapes = [list(s) for d in (1, 2, 3, 4) for s in itertools.product(range(1, 5), repeat=d)]
     fs = [dict(shapes=shapes[i:i + 20]) for i in range(0, len(shapes), 20)]
